@@ -811,6 +811,12 @@ func (a *Act) invoke(res ssa.Value, instr ssa.Instruction, c *ssa.CallCommon, re
 			// (unexported) package-level error variables
 			r := a.env[res]
 			g.assumeIf(reach, fmt.Sprintf("(or (= %s nilIface) (and (is-bOpaque (ibox %s)) (> (ubOpaque (ibox %s)) 1000000)))", r, r, r))
+			if key == "context.Context.Err" {
+				// the library calls ctx.Err() only in the select case in which ctx.Done() has delivered (both clients'
+				// SendAndRead): the context is done, so the error is non-nil (contract of package context; trusted)
+				g.note("context.Context.Err assumed non-nil (called after <-ctx.Done())")
+				g.assumeIf(reach, fmt.Sprintf("(not (= %s nilIface))", r))
+			}
 		}
 		return
 	}
@@ -1231,6 +1237,10 @@ func (a *Act) sendOp(in *ssa.Send, st *State, reach string) {
 	if a.g.eng.chanHook != nil && a.g.eng.chanHook.send(a, in, st, reach) {
 		return
 	}
+	if a.g.topCt != nil && a.g.topCt.mentions(chanWordRe) {
+		a.g.recordChanSend(a, st, a.val(in.Chan), in.X)
+		return
+	}
 	a.g.note("channel send in %s: no channel invariant", shortFn(a.fn))
 }
 
@@ -1252,7 +1262,7 @@ func (a *Act) selectOp(in *ssa.Select, st *State, reach string) {
 	if a.g.eng.chanHook != nil && a.g.eng.chanHook.sel(a, in, st, reach) {
 		return
 	}
-	if a.g.topCt != nil && a.g.topCt.mentions(clockWordRe) {
+	if a.g.topCt != nil && (a.g.topCt.mentions(clockWordRe) || a.g.topCt.mentions(chanWordRe)) {
 		a.selectModel(in, st, reach)
 		return
 	}
